@@ -13,7 +13,7 @@ def compile_tu(workdir, tag, cpp_text, extra=(), exceptions=False):
     with open(src, "w") as f:
         f.write(cpp_text)
     cmd = [CLANG, "-std=c++14", "-O0", "-g", "-fno-discard-value-names", "-fexceptions" if exceptions else "-fno-exceptions", "-ffp-contract=on", "-Xclang",
-           "-disable-O0-optnone", "-w", "-ferror-limit=0"] + MFLAGS + ["-include", os.path.join(VERIF, "extract", "shim.h"), "-I", os.path.join(REPO, "include"),
+           "-disable-O0-optnone", "-w", "-Wno-argument-outside-range", "-ferror-limit=0"] + MFLAGS + ["-include", os.path.join(VERIF, "extract", "shim.h"), "-I", os.path.join(REPO, "include"),
                                                   "-c", "-emit-llvm", src, "-o", bc] + list(extra)
     t0 = time.time()
     r = sh(cmd)
